@@ -13,6 +13,7 @@
 #include "concurrent_queue.h"
 #include "cpu.h"
 #include "epoch.h"
+#include "verif_hook.h"
 
 namespace yakushima {
 
@@ -21,6 +22,7 @@ public:
     void fin() {
         // for cache
         if (std::get<gc_target_index>(cache_node_container_) != nullptr) {
+            YAKUSHIMA_VERIF_EVENT(EV_FIN_RECLAIM_NODE, std::get<gc_target_index>(cache_node_container_), std::get<gc_epoch_index>(cache_node_container_), 0);
             delete std::get<gc_target_index>(cache_node_container_); // NOLINT
             std::get<gc_target_index>(cache_node_container_) = nullptr;
         }
@@ -28,11 +30,13 @@ public:
         while (!node_container_.empty()) {
             std::tuple<Epoch, base_node*> elem;
             if (!node_container_.try_pop(elem)) { continue; }
+            YAKUSHIMA_VERIF_EVENT(EV_FIN_RECLAIM_NODE, std::get<gc_target_index>(elem), std::get<gc_epoch_index>(elem), 0);
             delete std::get<gc_target_index>(elem); // NOLINT
         }
 
         // for cache
         if (std::get<gc_target_index>(cache_value_container_) != nullptr) {
+            YAKUSHIMA_VERIF_EVENT(EV_FIN_RECLAIM_VALUE, std::get<gc_target_index>(cache_value_container_), std::get<gc_epoch_index>(cache_value_container_), 0);
             ::operator delete(
                     std::get<gc_target_index>(cache_value_container_),
                     std::get<gc_target_size_index>(cache_value_container_),
@@ -43,6 +47,7 @@ public:
         while (!value_container_.empty()) {
             std::tuple<Epoch, void*, std::size_t, std::align_val_t> elem;
             if (!value_container_.try_pop(elem)) { continue; }
+            YAKUSHIMA_VERIF_EVENT(EV_FIN_RECLAIM_VALUE, std::get<gc_target_index>(elem), std::get<gc_epoch_index>(elem), 0);
             ::operator delete(std::get<gc_target_index>(elem),
                               std::get<gc_target_size_index>(elem),
                               std::get<gc_target_align_index>(elem));
@@ -62,6 +67,7 @@ public:
             if (std::get<gc_epoch_index>(cache_node_container_) >= gc_epoch) {
                 return;
             }
+            YAKUSHIMA_VERIF_EVENT(EV_RECLAIM_NODE, std::get<gc_target_index>(cache_node_container_), std::get<gc_epoch_index>(cache_node_container_), gc_epoch);
             delete std::get<gc_target_index>(cache_node_container_); // NOLINT
             std::get<gc_target_index>(cache_node_container_) = nullptr;
         }
@@ -74,6 +80,7 @@ public:
                 cache_node_container_ = elem;
                 return;
             }
+            YAKUSHIMA_VERIF_EVENT(EV_RECLAIM_NODE, std::get<gc_target_index>(elem), std::get<gc_epoch_index>(elem), gc_epoch);
             delete std::get<gc_target_index>(elem); // NOLINT
         }
     }
@@ -85,6 +92,7 @@ public:
             if (std::get<gc_epoch_index>(cache_value_container_) >= gc_epoch) {
                 return;
             }
+            YAKUSHIMA_VERIF_EVENT(EV_RECLAIM_VALUE, std::get<gc_target_index>(cache_value_container_), std::get<gc_epoch_index>(cache_value_container_), gc_epoch);
             ::operator delete(
                     std::get<gc_target_index>(cache_value_container_),
                     std::get<gc_target_size_index>(cache_value_container_),
@@ -99,6 +107,7 @@ public:
                 cache_value_container_ = elem;
                 return;
             }
+            YAKUSHIMA_VERIF_EVENT(EV_RECLAIM_VALUE, std::get<gc_target_index>(elem), std::get<gc_epoch_index>(elem), gc_epoch);
             ::operator delete(std::get<gc_target_index>(elem),
                               std::get<gc_target_size_index>(elem),
                               std::get<gc_target_align_index>(elem));
@@ -106,19 +115,26 @@ public:
     }
 
     static Epoch get_gc_epoch() {
+        YAKUSHIMA_VERIF_YIELD(Y_LOAD | Y_CAT_EPOCH, &gc_epoch_);
         return gc_epoch_.load(std::memory_order_acquire);
     }
 
     void push_node_container(std::tuple<Epoch, base_node*> elem) {
+        YAKUSHIMA_VERIF_YIELD(Y_STORE | Y_CAT_GC, this);
+        YAKUSHIMA_VERIF_EVENT(EV_RETIRE_NODE, std::get<gc_target_index>(elem), std::get<gc_epoch_index>(elem), 0);
         node_container_.push(elem);
     }
 
     void push_value_container(
             std::tuple<Epoch, void*, std::size_t, std::align_val_t> elem) {
+        YAKUSHIMA_VERIF_YIELD(Y_STORE | Y_CAT_GC, this);
+        YAKUSHIMA_VERIF_EVENT(EV_RETIRE_VALUE, std::get<gc_target_index>(elem), std::get<gc_epoch_index>(elem), std::get<gc_target_size_index>(elem));
         value_container_.push(elem);
     }
 
     static void set_gc_epoch(const Epoch epoch) {
+        YAKUSHIMA_VERIF_YIELD(Y_STORE | Y_CAT_EPOCH, &gc_epoch_);
+        YAKUSHIMA_VERIF_EVENT(EV_GC_EPOCH_SET, nullptr, epoch, 0);
         gc_epoch_.store(epoch, std::memory_order_release);
     }
 
